@@ -2,7 +2,6 @@ package props
 
 import (
 	"go/token"
-	"sort"
 	"strings"
 
 	"verif/checker/internal/an"
@@ -73,7 +72,9 @@ func c05(c *Ctx) {
 				}
 			}
 		}
-		isLenP := func(v ssa.Value) bool { return an.IsLenOf(v, func(x ssa.Value) bool { return x == ssa.Value(f.Params[0]) }) }
+		isLenP := func(v ssa.Value) bool {
+			return an.IsLenOf(v, func(x ssa.Value) bool { return x == ssa.Value(f.Params[0]) })
+		}
 		var minEdge, divEdge *an.Edge
 		for _, i := range an.Ifs(f) {
 			cd, ok := an.Classify(i)
@@ -220,14 +221,28 @@ func c05Strip(c *Ctx, f *ssa.Function) {
 		r.Undecide("R05.S", "strip:cut-points", c.pos(f.Pos()), "candidate slice dm[:i] handed to SHA-1 not found")
 		return
 	}
-	phi, ok := cand.High.(*ssa.Phi)
-	if !ok {
-		r.Undecide("R05.S", "strip:cut-points", c.pos(cand.Pos()), "cut point is not a loop induction variable")
-		return
+	// the cut point is the induction variable itself, or an expression of it (len - pad)
+	var loop *an.CountedLoop
+	var find func(v ssa.Value, d int)
+	find = func(v ssa.Value, d int) {
+		if loop != nil || d > 6 {
+			return
+		}
+		switch x := v.(type) {
+		case *ssa.Phi:
+			if l, ok := an.LoopOf(x); ok {
+				loop = l
+			}
+		case *ssa.BinOp:
+			find(x.X, d+1)
+			find(x.Y, d+1)
+		case *ssa.Convert:
+			find(x.X, d+1)
+		}
 	}
-	loop, ok := an.LoopOf(phi)
-	if !ok {
-		r.Undecide("R05.S", "strip:cut-points", c.pos(cand.Pos()), "counted loop not recovered from the induction variable")
+	find(cand.High, 0)
+	if loop == nil {
+		r.Undecide("R05.S", "strip:cut-points", c.pos(cand.Pos()), "the cut point is not an expression of a counted loop's induction variable")
 		return
 	}
 	dm := cand.X
@@ -235,19 +250,31 @@ func c05Strip(c *Ctx, f *ssa.Function) {
 	for _, L := range []int64{0, 12, 28, 44, 236} {
 		tried := map[int64]bool{}
 		neg := false
-		ok := loop.Iterate(func(v ssa.Value) (int64, bool) {
+		lenAtom := func(v ssa.Value) (int64, bool) {
 			if an.IsLenOf(v, func(x ssa.Value) bool { return x == dm }) {
 				return L, true
 			}
 			return 0, false
-		}, 64, func(i int64) {
-			tried[L-i] = true
-			if i < 0 || i > L {
+		}
+		evalOK := true
+		ok := loop.IterateTo(cand.Block(), lenAtom, 64, func(i int64) {
+			cut, ok := an.EvalInt(cand.High, func(v ssa.Value) (int64, bool) {
+				if v == ssa.Value(loop.Phi) {
+					return i, true
+				}
+				return lenAtom(v)
+			})
+			if !ok {
+				evalOK = false
+				return
+			}
+			tried[L-cut] = true
+			if cut < 0 || cut > L {
 				neg = true
 			}
 		})
-		if !ok {
-			r.Undecide("R05.S", "strip:cut-points", c.pos(cand.Pos()), "loop bounds are not affine in len(decoded message)")
+		if !ok || !evalOK {
+			r.Undecide("R05.S", "strip:cut-points", c.pos(cand.Pos()), "loop bounds / cut point are not affine in len(decoded message)")
 			return
 		}
 		var missing []string
@@ -262,14 +289,6 @@ func c05Strip(c *Ctx, f *ssa.Function) {
 		if neg {
 			bad = append(bad, sprintf("len=%d: a cut point outside [0,len] is used as a slice bound", L))
 		}
-		var extra []int64
-		for p := range tried {
-			if p > 15 {
-				extra = append(extra, p)
-			}
-		}
-		sort.Slice(extra, func(i, j int) bool { return extra[i] < extra[j] })
-		_ = extra
 	}
 	r.Check(len(bad) == 0, "R05.S", "strip:cut-points", c.pos(cand.Pos()), "iterated for decoded lengths 0,12,28,44,236: "+strings.Join(bad, "; "))
 
